@@ -8,11 +8,11 @@ def check(rep):
     ctx = Ctx(rep)
     ER.rule_grid(ctx)
     ER.rule_choice_search(ctx)
-    PR.rule_compiles(ctx, rid="C03.SHAPE-COMPILES")
+    PR.rule_compiles(ctx, rid="C03.SHAPE-COMPILES", strict=False)
     # population and weights position-aligned, in declared order, passed as weights=
-    n = PR.rule_translation(ctx, rid="C03.ALIGNED-LISTS")
-    rep.floor("shapes whose group lists were compared", n, 180)
-    PR.rule_coercions(ctx, rid="C03.WEIGHT-VALUES")
+    n = PR.rule_translation(ctx, rid="C03.ALIGNED-LISTS", focus="groups")
+    rep.floor("shapes whose group lists were compared", n, 150)
+    PR.rule_coercions(ctx, rid="C03.WEIGHT-VALUES", fields={"group_weight"})
     rep.assume("NOT decided: floating-point rounding of u*total against the float prefix sums (numerical behaviour over runtime values)")
     return ("Decides the shape conditions without which the partition is wrong at a boundary: right bisection on prefix sums of the "
             "weights in declared order, limited to [0, n-1]; u = k-bit integer / 2^k (so u<1, on the grid); population and weights "
